@@ -94,6 +94,11 @@ CLAIMED = {
    text="fixed_tx: 4 base transactions (minimal; full Conway body with all 8 witness fields and tag-259 auxiliary data, tagged sets; the same with untagged sets; legacy array redeemers with witness keys out of order) x all trees with <= 1 deviation (thorough: <= 2 with histories <= 1) from the per-node menu {each wider head, indefinite container, string in 1 / 2 chunks / empty first chunk, adjacent map entries swapped, map entry repeated, set element repeated, set tag dropped / added} x {from_bytes, from_hex, new / new_with_auxiliary} x every history of <= 2 (3) operations over 11 (add / sign vkey, add / sign bootstrap icarus + daedalus, re-adding a present witness, set_body, set_auxiliary_data, set_is_valid), checked after load and after every operation. datum: 7 base datums x <= 2 (3) deviations x 7 containers. block: the rich bodies x <= 1 deviation inside a block (FixedBlock, FixedTransactionBody).",
    note="Trusted: refcbor, cryptoxide. Repeating an element of a fixed-arity array (another shape, not another encoding) is left to C02's recorded finding.",
    design="DESIGN.md §3 C04"),
+ "C13": dict(
+   technique="bounded-exhaustive enumeration (E1, full product) of UTxO sequences x protocol-parameter configurations x target addresses x hash-container seeds on the real create_send_all; the returned transactions are re-parsed and judged by the harness's ledger model against the UTxO table",
+   text="sequences: every sequence of <= 3 (thorough 4) UTxOs over 14 kinds (pure ADA from dust to 2^40, assets whose summed quantity crosses 255|256, 2^32 and ~2^63 quantities, names of 0 / 1 / 32 bytes, 1..3 policies, asset-rich with little ADA, two Byron owners, one key behind three address forms) x 8 parameter configurations (tight max_tx_size, tight max_value_size, zero fee, tiny and tenfold min-ADA price, steep fee) x 3 targets x 2 hash seeds; families: 6 count families x n in {1..4, 22..26, 60} (thorough also 120, 254..257, 300) x 8 configurations x 2 seeds. Oracle: each supplied UTxO spent exactly once, only the target paid, lovelace and every asset balanced, fee >= a*|signed tx|+b with one witness per distinct key / Byron address (real-size witnesses inserted by the harness), |signed tx| <= max_tx_size, |value| <= max_value_size, min-ADA per output, no zero quantities.",
+   note="Trusted: ledger.rs, refcbor, notes/ledger_rules.md §1-§3. A refusal is not judged (the property is conditional).",
+   design="DESIGN.md §3 C13"),
 }
 
 PENDING_REASON = "check not built yet in this session (work in progress; see DESIGN.md §8 construction order)"
